@@ -28,7 +28,7 @@ import Thanos.Model.CompactSync
   C35   ship.run <cfg> <blocks> <steps>
           cfg    = <uploadCompacted 0|1><allowOutOfOrderUploads 0|1>
           blocks = <id>:<minT>:<maxT>:<level>:<numSamples>:<indexSize>:<seg>,<seg>,…;…   (sorted by minT, distinct)
-          steps  = s:<k> | s:x (one Sync with crash budget) | rm (shipper file lost) ; …
+          steps  = s:<k> | s:x (one Sync with crash budget) | t:<j> (one Sync whose j-th bucket call fails) | rm (shipper file lost) ; …
         answer: <status>[<mutating calls>]file=<ids|none> … => b<id>{<listing>} …
 
   C33   c33.fault <layout> <lister> <call> <sync> <readKind> <n> <outcome>     (layout, lister, call, sync, n: for the Go side)
@@ -221,13 +221,14 @@ def parseCfg (s : String) : Option Shipper.Cfg :=
   | _ => none
 
 inductive ShipStep where
-  | sync (k : Option Nat)
+  | sync (f : Shipper.Fault)
   | rm
 
 def parseShipStep (t : String) : Option ShipStep :=
   if t = "rm" then some .rm else
   match splitChar ':' t with
-  | ["s", k] => (parseBudget k).map .sync
+  | ["s", k] => (parseBudget k).map fun b => .sync ⟨b, none⟩
+  | ["t", j] => (parseNat? j).map fun j => .sync ⟨none, some j⟩
   | _ => none
 
 def showFile : Option (List Nat) → String
